@@ -87,6 +87,9 @@ class Cover:
             return lin_add(a, b, 1 if e["opcode"] == "+" else -1)
         if k == "UnaryOperator" and e.get("opcode") in ("++", "--") and e.get("isPostfix"):
             return self.lin(kids(e)[0], env)
+        if k == "UnaryOperator" and e.get("opcode") in ("++", "--"):
+            # prefix form: the value used is the already stepped one (the step itself is applied by _side_effects)
+            return lin_add(self.lin(kids(e)[0], env), lin_const(1 if e["opcode"] == "++" else -1))
         raise Unknown("index expression %s" % expr_str(e))
 
     def dest_offset(self, e, env):
@@ -109,6 +112,9 @@ class Cover:
                     return lin_add(off, self.lin(b, env))
         if k == "UnaryOperator" and e.get("opcode") in ("++", "--") and e.get("isPostfix"):
             return self.dest_offset(kids(e)[0], env)
+        if k == "UnaryOperator" and e.get("opcode") in ("++", "--"):
+            off = self.dest_offset(kids(e)[0], env)
+            return None if off is None else lin_add(off, lin_const(1 if e["opcode"] == "++" else -1))
         return None
 
     # ---- statements -------------------------------------------------------------------
